@@ -288,7 +288,8 @@ pub fn gen_replay(seed: u64, focus_arg: &str) -> Replay {
             3 => Step::Unmap { size, page: g.page(size) },
             4 => {
                 let page = g.page(size);
-                Step::UpdateFlags { size, page, flags: g.leaf_flags(size, true) }
+                let flags = if g.rng.chance(4) { 0 } else { g.leaf_flags(size, true) };
+                Step::UpdateFlags { size, page, flags }
             }
             5 => {
                 let page = g.page(size);
